@@ -84,7 +84,7 @@ class MyObject(impl.PVLObject):
     pass
 
 
-REALS = ["1.50", "0.10", "1.0E3", "-2.50", "+.5", "1.", "100.000"]
+REALS = ["1.50", "0.10", "1.0E3", "-2.50", "+.5", "1.", "100.000", "3." + "14159" * 12]     # the last one: 62 characters
 INTS = ["7", "-3", "16#FF#", "0"]
 STRS = ["abc", '"N/A"']        # a text value may carry units too (PVL): the quantity class applies to it as well
 
@@ -108,6 +108,9 @@ POSITIONS = [
     ("group-in-object", "OBJECT = o\n GROUP = g\n  k = ({v}, {v} <m>)\n END_GROUP\n q = {v}\nEND_OBJECT\nz = {v}\n", 0),
     ("object-in-object", "OBJECT = o\n OBJECT = o\n  k = {v}\n END_OBJECT\nEND_OBJECT\nOBJECT = o\n k = {v}\nEND_OBJECT\n", 0),
     ("after-comment", "/* c */ k = /* d */ {v} /* e */ <m>\nEND\n", 0),
+    # long runs: an integer after nine values of the other kind (and the other way round)
+    ("long-seq", "k = ({v}, {v}, {v}, {v}, {v}, {v}, {v}, {v}, {v}, 7, {v}, 16#F#)\n", 0),
+    ("long-set-and-block", "GROUP = g\n k = (1, 2, 3, 4, 5, 6, 7, 8, 9, {v}, 3, 16#A#)\nEND_GROUP\n", 0),
     # the module itself is a container too, also when nothing is in it
     ("empty-text", "", 0), ("blank-text", " \n\n", 0), ("comment-only", "/* c */\n", 0), ("end-only", "END\n", 0),
     # the same number written twice, differently ({w} is another spelling of {v})
@@ -147,7 +150,7 @@ def composed_positions(depth):
     return out
 
 
-ALT = {"1.50": "1.5", "0.10": "0.100", "1.0E3": "1000.0", "-2.50": "-2.5", "+.5": "0.50", "1.": "1", "100.000": "100",
+ALT = {"3." + "14159" * 12: "3.14159", "1.50": "1.5", "0.10": "0.100", "1.0E3": "1000.0", "-2.50": "-2.5", "+.5": "0.50", "1.": "1", "100.000": "100",
        "7": "7.0", "-3": "-3.00", "16#FF#": "255.0", "0": "0.0", "abc": '"abc"', '"N/A"': "'N/A'"}
 # third field: 0 = all dialects; 1 = not ODL/PDS3 (ODL has no such construct); 2 = only where a
 # quantity is hashable (default Quantity is a namedtuple: fine; RecQ defines __hash__)
@@ -180,10 +183,13 @@ def parser_for(d, real, qty, cont):
         return impl.ODLParser(grammar=impl.PDSGrammar(), decoder=impl.PDSLabelDecoder(quantity_cls=q_cls, real_cls=real_cls), **kw)
     if d == "ISISsep":
         return impl.OmniParser(grammar=impl.ISISGrammar(), decoder=impl.OmniDecoder(quantity_cls=q_cls, real_cls=real_cls), **kw)
+    if d == "TOKENS":
+        g = impl.PVLGrammar()
+        return impl.PVLParser(grammar=g, decoder=impl.PVLDecoder(grammar=g, quantity_cls=q_cls, real_cls=real_cls), **kw)
     return None      # OMNI goes through pvl.loads(), see load()
 
 
-FAMILIES = tuple(impl.DIALECTS) + ("PVLsep", "ODLsep", "PDS3sep", "ISISsep", "OMNIsep", "OMNIbytes", "NEW")
+FAMILIES = tuple(impl.DIALECTS) + ("PVLsep", "ODLsep", "PDS3sep", "ISISsep", "OMNIsep", "OMNIbytes", "NEW", "TOKENS")
 
 
 def _old_classes(m):
@@ -212,6 +218,12 @@ def load(d, text, real, qty, cont):
         if d == "OMNIbytes":
             text = text.encode("utf-8")
         return pvl.loads(text, decoder=impl.OmniDecoder(quantity_cls=q_cls, real_cls=real_cls), **kw)
+    if d == "TOKENS":
+        # the parser's public token-level entry point, fed by a lexer the caller started without a decoder
+        # (this is how the repository's own tests drive the parser): the parser's decoder still decides
+        from pvl.lexer import lexer
+        p = parser_for(d, real, qty, cont)
+        return p.parse_module(lexer(text, g=p.grammar))
     return parser_for(d, real, qty, cont).parse(text)
 
 
@@ -370,7 +382,7 @@ def run(ctx):
         "states": len(acc.sets["pos"]), "transitions": acc.traces,
         "traces_validated_against_impl": acc.traces,
         "rule": "%d grammar positions (the curated ones; thorough adds every composition up to depth 3 of sequence-first / sequence-last / sequence-only / set-member contexts x bare | with units | units on the sequence x 5 block wrappers) x %d spellings (reals %r, integers and strings %r) x 4 real classes (float, Decimal, a recording float subclass, a text-keeping class outside the numeric tower) x 3 quantity classes (default, a recording class, a partial class that refuses units it does not know) x "
-                "2 container-class sets x 12 parser/decoder families (the five configurations; four of them and pvl.loads again with grammar and decoder built separately; pvl.loads of bytes; pvl.new.loads), full product; states = (position, "
+                "2 container-class sets x 13 parser/decoder families (the five configurations; four of them and pvl.loads again with grammar and decoder built separately; pvl.loads of bytes; pvl.new.loads; PVLParser.parse_module on a token stream from a bare lexer), full product; states = (position, "
                 "substitute combination); non-trivial = both configurations loaded and every node of the result "
                 "was type-checked and compared after mapping back" % (len(POSITIONS), len(REALS + INTS + STRS), REALS, INTS + STRS),
         "outcome_histogram": dict(acc.outcomes),
